@@ -332,7 +332,7 @@ Definition iter_info (G : env) (it : witer) : option bool :=
       match eval_bound G a, eval_bound G b with
       | Some x, Some y =>
           match s with
-          | None => Some (if Z.ltb x y then Z.ltb (x + 1) y else Z.ltb y (x - 1))
+          | None => Some (Z.ltb (x + 1) y)           (* documented default step: 1 *)
           | Some sb =>
               match eval_bound G sb with
               | Some z =>
